@@ -171,6 +171,18 @@ def quota_vectors():
             b["lq_given"] = False
             b["lt"], b["llq"] = 0.0, 0
             out.append(b)
+    # two-digit counts and quota sums (default RNG answers)
+    for n1, n2 in ((2, 10), (11, 3), (10, 12)):
+        for uq in (n2, n2 + 9, 2 * n2 + 1):
+            for lq in sorted({0, min(9, uq), uq}):
+                out.append(base("hr", n1, n2, None, 1, min(2, n2), 0.0, 0.0, True, lq=lq, uq=uq))
+                out.append(base("ha", n1, n2, None, 1, min(3, n2), 1.0, 0.0, False, lq=lq, uq=uq))
+    for n2, n3 in ((10, 3), (12, 5), (11, 11), (9, 10)):
+        for twopl in (False, True):
+            out.append(base("spa", 3, n2, n3, 1, 3, 0.0, 1.0 if twopl else 0.0, twopl,
+                            lq=9, uq=2 * n2 + 1, llq=n3 - 1, lt=n3 + 9, luq=n3 + 10))
+    out.append(base("sm", 10, None, None, 1, 10, 0.0, 0.0, True))
+    out.append(base("sm", 11, None, None, 10, 11, 1.0, 1.0, True))
     for n2, n3 in ((1, 1), (2, 1), (2, 2), (3, 2), (2, 3), (3, 3), (1, 3)):
         for uq in range(n2, 2 * n2 + 1):
             for lq in (0, 1, uq):
